@@ -57,7 +57,24 @@ def run_enum(prop, tier, evalref, cases, *, rule, assumptions=(), chunk=32, leve
     if not cases:
         raise HarnessError('empty enumeration')
     chunks = [(evalref, cases[i:i + chunk]) for i in range(0, len(cases), chunk)]
-    parts = fork_map(_eval_chunk, chunks, procs=NCPU)
+    parts = fork_map(_eval_chunk, chunks, procs=NCPU, on_death=lambda job, status: ('DIED', status))
+    # a worker that was killed (e.g. SIGSEGV from reading unmapped memory) took its whole chunk with it: evaluate
+    # the cases of such chunks one per process, so that the culprit is identified and reported as a violation
+    for ci, part in enumerate(parts):
+        if isinstance(part, tuple) and part and part[0] == 'DIED':
+            singles = fork_map(_eval_chunk, [(evalref, [c]) for c in chunks[ci][1]], procs=NCPU,
+                               on_death=lambda job, status: ('DIED', status), always_fork=True)
+            fixed = []
+            for c, one in zip(chunks[ci][1], singles):
+                if isinstance(one, tuple) and one and one[0] == 'DIED':
+                    st = one[1]
+                    import signal as _sg
+                    name = _sg.Signals(st & 0x7f).name if (st & 0x7f) else f'status {st}'
+                    fixed.append(([({'oracle': 'crash', 'op': 'evaluate', 'symptom': f'interpreter killed ({name})'},
+                                    f'evaluating this case killed the interpreter ({name})', {})], None, 1))
+                else:
+                    fixed.extend(one)
+            parts[ci] = fixed
     classes = set()
     evaluations = 0
     i = 0
